@@ -446,6 +446,7 @@ func (g *gen) array(depth int) *Type {
 			}
 			a.Dims = append(a.Dims, d)
 		}
+		g.dimComments(a)
 		return a
 	default: // fixed
 		n := 1 + g.intn("arrFRank", 3)
@@ -460,7 +461,23 @@ func (g *gen) array(depth int) *Type {
 			}
 			a.Dims = append(a.Dims, d)
 		}
+		g.dimComments(a)
 		return a
+	}
+}
+
+// dimComments documents some dimensions of an array (comments above the entries of `dimensions:`).
+func (g *gen) dimComments(a *Type) {
+	if !g.cfg.Comments || !g.chance("dimComments", 15) {
+		return
+	}
+	for i := range a.Dims {
+		if i == 0 || g.chance("dimComment", 50) {
+			a.Dims[i].Comment = g.comment("dimCommentText")
+			if a.Dims[i].Comment == "" {
+				a.Dims[i].Comment = "slowest varying"
+			}
+		}
 	}
 }
 
